@@ -1,6 +1,7 @@
 """C16 -- helper factories: escaping, tables, anchors, URIs, EPC layout and limits, factories."""
 import ast
 import decimal
+import re
 
 from .. import ev, iso, nf, pat, src, rx
 from ..core import rule, ob, explain, Ob
@@ -447,7 +448,7 @@ def r4(fx):
     from urllib.parse import unquote
     it = Interp(max_steps=20_000_000)
     fn = fx.fn('helpers', 'make_make_email_data')
-    txt = 'Sub ject?&=#%+\u00e4\n' + HOSTILE
+    txt = 'Sub ject?&=#%+\u00e4\n 100%41 %2F%c3%b6 50%' + HOSTILE
     for to in ('a@example.org', ['a@example.org', 'b@example.org']):
         for cc in (None, 'c@example.org', ('c@example.org', 'd@example.org')):
             for bcc in (None, ['e@example.org']):
@@ -478,6 +479,8 @@ def r4(fx):
                                     why = f'parameters {pairs[:3]}'
                                 elif any(ch in v for k, v in pairs if k in ('subject', 'body') for ch in ' ?&=#\n\r"'):
                                     why = 'a reserved character survives in a text parameter'
+                                elif any(re.search(r'%(?![0-9A-Fa-f]{2})', v) for k, v in pairs if k in ('subject', 'body')):
+                                    why = 'a "%" that does not start a percent-encoded octet survives in a text parameter'
                         yield ob(f'mailto to={len([to] if isinstance(to, str) else to)} cc={cc and len([cc] if isinstance(cc, str) else cc)} bcc={bool(bcc)} '
                                  f'subject={"None" if subject is None else len(subject)} body={"None" if body is None else len(body)}', not why, fn,
                                  got=why or 'a mailto URI carrying the values', want='a mailto URI carrying the values')
